@@ -293,3 +293,10 @@ func header(x []byte, limit uint32) []byte {
 	}
 	return x
 }
+
+func min(a, b int) int {
+	if a < b {
+		return a
+	}
+	return b
+}
